@@ -10,7 +10,8 @@ framework then searches for a failing input and reports).  Conventions of the tr
   * the body of the n-th `for` loop of a method (source order) becomes its own definition
     `<m>_for<n>` so that the loop lemmas can name it;
   * a `for` over `self.d.items()/values()` whose body writes `self.d` or calls a method is refused
-    (Python: RuntimeError "dictionary changed size during iteration"; the embedding iterates a snapshot).
+    (Python: RuntimeError "dictionary changed size during iteration"; the embedding iterates a snapshot),
+    and so is a `for` over a list local whose body rebinds or calls a method of that list.
 """
 import ast
 from . import ExtractError, parse, find_class, find_func, strip_doc, HEADER
@@ -284,6 +285,12 @@ class Method(object):
         if isinstance(n, ast.For) and not n.orelse:
             it, t = n.iter, n.target
             if isinstance(t, ast.Name) and self.lst(it) is not None:
+                for sub in n.body:
+                    for x in ast.walk(sub):
+                        if (isinstance(x, ast.Name) and x.id == it.id and isinstance(x.ctx, (ast.Store, ast.Del))) or \
+                                (isinstance(x, ast.Call) and isinstance(x.func, ast.Attribute)
+                                 and isinstance(x.func.value, ast.Name) and x.func.value.id == it.id):
+                            raise ExtractError('%s: loop over list %s changes it' % (m, it.id))
                 return '(.forList %d %d %s)' % (self.var(t.id), self.lst(it), self.loop(n.body))
             if isinstance(t, ast.Name) and isinstance(it, ast.Call) and isinstance(it.func, ast.Name) \
                     and it.func.id == 'range' and not it.keywords and 1 <= len(it.args) <= 3:
